@@ -72,7 +72,7 @@ package limit
 //@   guarded mu: estimatedLimit, rttNoLoad, probeJitter, probeCount, listeners
 //@   immutable: maxLimit, smoothing, alphaFunc, betaFunc, thresholdFunc, increaseFunc, decreaseFunc, rttSampleListener, commonSampler, probeMultipler, registry, logger
 //@   dyntype rttNoLoad: *measurements.MinimumMeasurement
-//@   inv[C04] bounds: isFinite(this.estimatedLimit) && 1.0 <= this.estimatedLimit && this.estimatedLimit <= this.cap
+//@   inv[C04,C08] bounds: isFinite(this.estimatedLimit) && 1.0 <= this.estimatedLimit && this.estimatedLimit <= this.cap
 //@   inv[C04] cap: isFinite(this.cap) && float64(this.maxLimit) <= this.cap && this.cap <= 1.0e9 && 0 <= this.maxLimit
 //@   inv cfg: isFinite(this.smoothing) && 0.0 <= this.smoothing && this.smoothing <= 1.0 && 1 <= this.probeMultipler && this.probeMultipler <= 1000000000
 //@   inv[C15] probe: isFinite(this.probeJitter) && 0.5 <= this.probeJitter && this.probeJitter < 1.0 && 0 <= this.probeCount && this.probeCount <= 1<<62
@@ -217,7 +217,7 @@ package limit
 //@   guarded mu: estimatedLimit, resetRTTCounter, listeners
 //@   immutable: maxLimit, minLimit, queueSizeFunc, smoothing, rttTolerance, probeInterval, rttNoLoadMeasurement, logger, registry, commonSampler, minRTTSampleListener, minWindowRTTSampleListener, queueSizeSampleListener
 //@   dyntype rttNoLoadMeasurement: *measurements.MinimumMeasurement
-//@   inv[C04] bounds: isFinite(this.estimatedLimit) && float64(this.minLimit) <= this.estimatedLimit && this.estimatedLimit <= this.cap
+//@   inv[C04,C08] bounds: isFinite(this.estimatedLimit) && float64(this.minLimit) <= this.estimatedLimit && this.estimatedLimit <= this.cap
 //@   inv[C04] cap: isFinite(this.cap) && float64(this.maxLimit) <= this.cap && this.cap <= 1.0e9
 //@   inv cfg: 1 <= this.minLimit && this.minLimit <= this.maxLimit && isFinite(this.smoothing) && 0.0 <= this.smoothing && this.smoothing <= 1.0 && isFinite(this.rttTolerance) && 0.0 <= this.rttTolerance && this.rttTolerance <= 1.0e6 && (this.probeInterval == -1 || (1 <= this.probeInterval && this.probeInterval <= 1<<31))
 //@   inv[C15] counter: this.probeInterval != -1 ==> 1 <= this.resetRTTCounter && this.resetRTTCounter < 2 * this.probeInterval
@@ -302,7 +302,7 @@ package limit
 //@   immutable: shortRTT, longRTT, maxLimit, minLimit, queueSizeFunc, smoothing, commonSampler, longRTTSampleListener, shortRTTSampleListener, queueSizeSampleListener, logger, registry
 //@   dyntype shortRTT: *measurements.SingleMeasurement
 //@   dyntype longRTT: *measurements.ExponentialAverageMeasurement
-//@   inv[C04] bounds: isFinite(this.estimatedLimit) && float64(this.minLimit) <= this.estimatedLimit && this.estimatedLimit <= this.cap
+//@   inv[C04,C08] bounds: isFinite(this.estimatedLimit) && float64(this.minLimit) <= this.estimatedLimit && this.estimatedLimit <= this.cap
 //@   inv[C04] cap: isFinite(this.cap) && float64(this.maxLimit) <= this.cap && this.cap <= 1.0e9
 //@   inv cfg: 1 <= this.minLimit && this.minLimit <= this.maxLimit && isFinite(this.smoothing) && 0.0 <= this.smoothing && this.smoothing <= 1.0
 //@   inv[C04] rtts: ref(this.shortRTT) != nil && ref(this.longRTT) != nil && inv(g2Long(this)) && g2Long(this).value >= 0.0 && g2Long(this).sum >= 0.0 && (g2Long(this).count > 0 ==> g2Long(this).lo >= 0.0 && g2Long(this).hi <= 4611686018427387904.0)
